@@ -38,7 +38,9 @@ static CaseResult run_case(Tape &t, const dif::CaseOpt &opt = dif::CaseOpt())
 	if (nhon + nsac > nslots) { nhon = std::min(nhon, nslots); nsac = std::max(0, nslots - nhon); }
 	int nsrc = nhon + nsac + nhost;
 	boot(E, t, nsrc);
-	sim::W.actors[sim::Addr::v4(127, 0, 0, 1, 5353)] = [](const sim::Datagram &) {};
+	// the local resolver behind -b: silent, but remembers where forwarded queries come from (the server's forwarding socket)
+	static sim::Addr fwd_sock; static bool have_fwd_sock; have_fwd_sock = false;
+	sim::W.actors[sim::Addr::v4(127, 0, 0, 1, 5353)] = [](const sim::Datagram &dg) { fwd_sock = dg.src; have_fwd_sock = true; };
 	switch (t.pick({3, 2, 2, 1})) { case 0: sim::W.residue_mode = 1; sim::W.residue_byte = 0; break; case 1: sim::W.residue_mode = 1; sim::W.residue_byte = 0xff; break; case 2: sim::W.residue_mode = 1; sim::W.residue_byte = (uint8_t)t.below(256); break; default: sim::W.residue_mode = 2; sim::W.residue_data = t.bytes_of(1 + t.below(300)); break; }
 	dif::apply_residue(opt); dif::record(opt);
 	mal::Stats ms;
@@ -107,7 +109,16 @@ static CaseResult run_case(Tape &t, const dif::CaseOpt &opt = dif::CaseOpt())
 		scn::ScriptClient &sc = E.S(src).sc;
 		std::string what;
 		switch (t.pick({4, 6, 6, 5, 3, 2, 2, 2, 3, 2, 3, 3})) {
-		case 0: { sim::Datagram dg; dg.src = sc.addr; dg.dst = sc.server; dg.data = mal::raw_bytes(t, ms); sim::W.send(dg); what = fmt("raw bytes %zuB", dg.data.size()); break; }
+		case 0: { sim::Datagram dg; dg.src = sc.addr; dg.dst = sc.server; dg.data = mal::raw_bytes(t, ms);
+			if (c.forward_port && dg.data.size() % 3 == 0) {
+				// forwarding on (one raw-bytes step in three, no tape draw): a burst of 17..40 queries for names outside the tunnel domain (more than
+				// the 16 the server remembers) and then a datagram from the local resolver whose id matches none of them
+				int nq = 17 + (int)(dg.data.size() % 24);
+				for (int j = 0; j < nq; j++) { sim::Datagram fq; fq.src = sc.addr; fq.dst = sc.server; fq.data = refproto::make_query((uint16_t)(41000 + 7 * j + k), fmt("host%d.elsewhere.example.org", j), 1, false); sim::W.send(fq); sim::W.run_for(300); }
+				if (have_fwd_sock) { sim::Datagram rp; rp.src = sim::Addr::v4(127, 0, 0, 1, 5353); rp.dst = fwd_sock; rp.data = refproto::make_query((uint16_t)(9 + k), "late.elsewhere.example.org", 1, false); rp.data[2] |= 0x80; sim::W.send(rp); sim::W.run_for(300); }
+				what = fmt("forwarding burst of %d queries + stray resolver reply", nq); ms.hit("forwarding-burst"); break;
+			}
+			sim::W.send(dg); what = fmt("raw bytes %zuB", dg.data.size()); break; }
 		case 1: { static const char CMD[] = "vVlLiIzZsSoOyYrRnNpP0123456789abcdefABCDEFgxX-_"; char cmd = t.chance(2, 3) ? CMD[t.below(sizeof CMD - 1)] : 0;
 			sim::Datagram dg; dg.src = sc.addr; dg.dst = sc.server; dg.data = mal::hostile_query(t, c.domain, cmd, ms); sim::W.send(dg); what = fmt("malformed DNS %zuB cmd=%c", dg.data.size(), cmd ? cmd : '-'); break; }
 		case 2: {   // protocol message with adversarial fields
